@@ -97,30 +97,70 @@ Proof. exact (fail_on_both_paths (proj1 ob_connect_switch) (proj2 ob_tls_scheme)
                T05_precedence T05_pac_first_entry). Qed.
 Print Assumptions T05_fail_on_both_paths.
 
-(* One exchange contacts one party: every dial attempt (retries included) and the single use of the
-   connection go to the address the connect-to rules map the selected hop to; a failed selection dials nothing. *)
-Theorem T05_single_recipient : forall cfg rules t attempts failures,
+(* net.go's Dialer (retry loop transcribed, redirect placed where the source places it): for every rule list,
+   attempts setting, address and EVERY sequence of attempt outcomes, all attempts go to the address the rules map
+   the given address to, computed once; the loop stops at the first success and after at most `attempts`
+   (<= 0 meaning 1) attempts. *)
+Theorem T05_dialer_redirects_once : forall rules attempts outcomes addr,
+  dialer_dial rules attempts outcomes addr =
+  (repeat (dial_redirect rules addr) (fst (tries (effective_attempts attempts) outcomes)),
+   if snd (tries (effective_attempts attempts) outcomes) then Some (dial_redirect rules addr) else None) /\
+  (1 <= fst (tries (effective_attempts attempts) outcomes) <= effective_attempts attempts)%nat.
+Proof. exact (fun rules attempts outcomes addr =>
+               conj (dialer_once rules attempts outcomes addr ob_redirect_before_retry_loop)
+                    (conj (tries_positive _ outcomes (effective_attempts_pos attempts))
+                          (tries_bound _ outcomes))). Qed.
+Print Assumptions T05_dialer_redirects_once.
+
+(* The other source shape the translator knows (redirect inside the retry loop) is NOT the property: with rules
+   A->B, B->C and a failing first attempt the retry goes to C (the model branch for that shape, evaluated). *)
+Theorem T05_redirect_in_retry_loop_refuted :
+  exists rules outcomes addr a1 a2,
+    fst (dial_loop rules true 2 outcomes addr) = [a1; a2] /\ a1 <> a2 /\
+    fst (dial_loop rules false 2 outcomes (dial_redirect rules addr)) = [a1; a1].
+Proof. exact redirect_in_loop_refuted. Qed.
+Print Assumptions T05_redirect_in_retry_loop_refuted.
+
+(* One exchange contacts one party, whatever the socket layer answers to the attempts: every dial attempt
+   (retries included) and the single use of the connection go to the address the connect-to rules map the
+   selected hop to; a failed selection dials nothing. *)
+Theorem T05_single_recipient : forall cfg rules t attempts outcomes,
   cfg_wf cfg ->
   match spec_route cfg rules t with
-  | OFail => exchange cfg rules t attempts failures = []
+  | OFail => exchange_o cfg rules t attempts outcomes = []
   | OSent a tls w nm =>
-      (forall e, In e (exchange cfg rules t attempts failures) -> event_addr e = a) /\
-      (exists n, (1 <= n)%nat /\
-         (exchange cfg rules t attempts failures = repeat (EvDial a) n ++ [EvUse a tls w nm] \/
-          exchange cfg rules t attempts failures = repeat (EvDial a) n))
+      (forall e, In e (exchange_o cfg rules t attempts outcomes) -> event_addr e = a) /\
+      (exists n, (1 <= n <= effective_attempts attempts)%nat /\
+         (exchange_o cfg rules t attempts outcomes = repeat (EvDial a) n ++ [EvUse a tls w nm] \/
+          exchange_o cfg rules t attempts outcomes = repeat (EvDial a) n))
   end.
 Proof. exact (single_recipient (proj1 ob_connect_switch) (proj2 ob_tls_scheme) ob_transport_socks
                (conj (proj1 ob_shared_functions) (proj1 (proj2 ob_shared_functions)))
-               T05_precedence T05_pac_first_entry). Qed.
+               T05_precedence T05_pac_first_entry ob_redirect_before_retry_loop). Qed.
 Print Assumptions T05_single_recipient.
 
-(* The run-time oracle compares the observed socket events with spec_exchange; the model's trace is that trace. *)
-Theorem T05_exchange_is_spec : forall cfg rules t attempts failures,
+(* The model's trace (routing code, then the Dialer) is the spec's trace, for every sequence of attempt outcomes;
+   the run-time oracle compares the observed socket events with the instance "k failures, then a success". *)
+Theorem T05_exchange_is_spec : forall cfg rules t attempts outcomes,
+  cfg_wf cfg -> exchange_o cfg rules t attempts outcomes = spec_exchange_o cfg rules t attempts outcomes.
+Proof. exact (exchange_o_is_spec (proj1 ob_connect_switch) (proj2 ob_tls_scheme) ob_transport_socks
+               (conj (proj1 ob_shared_functions) (proj1 (proj2 ob_shared_functions)))
+               T05_precedence T05_pac_first_entry ob_redirect_before_retry_loop). Qed.
+Print Assumptions T05_exchange_is_spec.
+
+Theorem T05_scripted_exchange_is_spec : forall cfg rules t attempts failures,
   cfg_wf cfg -> exchange cfg rules t attempts failures = spec_exchange cfg rules t attempts failures.
 Proof. exact (exchange_is_spec (proj1 ob_connect_switch) (proj2 ob_tls_scheme) ob_transport_socks
                (conj (proj1 ob_shared_functions) (proj1 (proj2 ob_shared_functions)))
-               T05_precedence T05_pac_first_entry). Qed.
-Print Assumptions T05_exchange_is_spec.
+               T05_precedence T05_pac_first_entry ob_redirect_before_retry_loop). Qed.
+Print Assumptions T05_scripted_exchange_is_spec.
+
+(* Non-vacuity of the dialer statements: a chained rule list, three attempts, the first two fail. *)
+Example T05_example_dialer :
+  dialer_dial ex_rules_chain 3 [false; false; true; false] (b "a.test:80") =
+    ([b "b.test:80"; b "b.test:80"; b "b.test:80"], Some (b "b.test:80")) /\
+  dialer_dial ex_rules_chain 0 [false; true] (b "a.test:80") = ([b "b.test:80"], None).
+Proof. exact (conj eq_refl eq_refl). Qed.
 
 (* Every proxy type the PAC parser knows is DIRECT, supported by both consumers, or rejected (generic form of
    the repair of finding F6: it also covers a type added to parseMode later). *)
